@@ -509,13 +509,19 @@ def gen(rng, tier):
             yield 'final_exp', C.head() + [[0], v], tag + '/' + cl
 
     # ---------------- law-level: every engine ----------------
-    law_engines = [0, 1, 2, 3, 5, 7, 10] if quick else sorted(ENGINES)
+    # quick tier: the three most expensive engines (mnt4_753, mnt6_753, bw6_767) get a minimal law-level set (one
+    # bilinearity / additivity / order / prepared case, identities, one multi-pairing across the chunk border), so that a
+    # change that only shows under THEIR constants (e.g. a negative first loop count: bw6_767) is still seen on every run
+    law_engines = sorted(ENGINES)
+    minimal = (4, 6, 8) if quick else ()
     for e in law_engines:
         r = prm[e]['r']
         tag = ENGINES[e][3]
         fam = ENGINES[e][2]
         big = e in (4, 6, 7, 8)
         k = (2 if quick else 12) if big else (5 if quick else 40)
+        if e in minimal:
+            k = 1
         yield 'generators_nondegenerate', [[e]], tag
         for _ in range(k):
             s, cs = nz_scalar(rng, r)
@@ -548,6 +554,8 @@ def gen(rng, tier):
         ns = [0, 1, 3, 4, 5, 8, 9] if quick else [0, 1, 2, 3, 4, 5, 7, 8, 9, 12, 13] * 3
         if big and quick:
             ns = [0, 1, 4, 5, 9]
+        if e in minimal:
+            ns = [5]
         for n in ns:
             for with_ids in ([False] if n == 0 else [False, True]):
                 ss, ts = [], []
